@@ -42,7 +42,7 @@ echo "demo with change rc=$W (want != 0); without rc=$WO (want 0); suite with ch
 # /verif's evidence is touched, and other runs in /verif are not disturbed
 VS=/tmp/verif_seed
 [ -d $VS/.git ] || git clone -q /verif $VS
-git -C $VS pull -q 2>/dev/null
+git -C $VS fetch -q origin && git -C $VS reset -q --hard FETCH_HEAD
 cd $VS
 mv "$WT/$DEMO" /tmp/seeded_demo_hold_$NAME.rs 2>/dev/null
 RES=""
